@@ -416,4 +416,28 @@ PLANS["C07"] = {
     "assumptions": ["dump via public read API", "default TreeAdditiveCostModel"],
 }
 
+def c05_jobs(tier, seed, bin_dir, replay):
+    if replay:
+        return [eggmon(bin_dir, "exec", "replay", seed, tier, extra={"file": replay})]
+    q = tier == "quick"
+    js = shards(bin_dir, "c05", seed, tier, 2400, 96000)
+    # the per-shard parallel insertion path: cut-offs 0, several thread counts; crash = violation
+    for j, env, lab in [(2, ALL_ZERO, "j2-zero"), (4, ALL_ZERO, "j4-zero"), (8, ALL_ZERO, "j8-zero"),
+                        (4, {"EGGLOG_PARALLEL_TABLE_OP_CUTOFF": "0"}, "j4-tableop0"),
+                        (3, _cut(EGGLOG_PARALLEL_ACTION_BATCH_SIZE=7), "j3-batch7")]:
+        js.append(eggmon(bin_dir, "c05", f"c05-{lab}", seed * 1000 + 90 + j, tier, n=((150 if "tableop" in lab else 50) if q else 4000), threads=j, env=env, on_crash="violation"))
+    return js
+
+
+PLANS["C05"] = {
+    "jobs": c05_jobs,
+    "level": "exploration",
+    "technique": "history + executable model: logged write multisets folded by a reference lattice over harness-side congruence classes, replayed in several orders/batchings on the real engine (serial and parallel insertion paths)",
+    "level_text": "Write multisets over lattice-merge functions (min, max, or, and, set-union, set-intersect, nested function merge) whose keys are e-class terms collapsed by unions and congruence are replayed in 6 orders and batchings (one command per write, one rule firing, split over iterations with unions in rule heads, before/after rebuild, through the Rust update API); the stored table must equal the harness' fold and all replays must agree. :no-merge conflicts (direct and created by a union) must raise an error, equal writes must not. Serial children plus 2/3/4/8-thread children with parallel cut-offs 0.",
+    "level_note": "The fold is computed by ~40 lines of harness code over a 9-term key universe; lattices whose join is neither input (set-union, or) are mandatory because min/max hide a lost merge.",
+    "floors": {"quick": {"replays": 10000, "keys_checked": 40000, "nomerge_cases": 2000, "multisets_with_collisions_or_collapsed_keys": 1500},
+               "thorough": {"replays": 500000, "keys_checked": 2000000, "nomerge_cases": 90000, "multisets_with_collisions_or_collapsed_keys": 80000}},
+    "assumptions": ["dump via public read API", "cut-offs are read once per process from the environment"],
+}
+
 NOT_APPLICABLE = {}
